@@ -291,9 +291,11 @@ Definition filter_pmt_packets (pkts : list bytes) (want : list N) : Res (option 
   let? payload := concat_payloads pkts in
   let? p := new_pmt payload in                       (* the parse error is returned *)
   let? pmt_pid := pkt_pid first in
-  let missing := filter (fun pid => negb (pid_exists p pid) && negb (pid =? 0) && negb (pid =? pmt_pid)) want in
+  (* considered: requested PIDs other than PatPid and pmtPid (4841ed3); missing: considered ones not in the PMT *)
+  let considered := filter (fun pid => negb (pid =? 0) && negb (pid =? pmt_pid)) want in
+  let missing := filter (fun pid => negb (pid_exists p pid)) considered in
   let rerr := match missing with [] => None | _ => Some missing end in
-  if len missing =? len want then Ok (None, rerr) else
+  if (0 <? len missing) && (len missing =? len considered) then Ok (None, rerr) else
   let pf1 := Psi.pointer_field payload + 1 in        (* int *)
   if len payload <? pf1 + 12 then Err E.PMTParse else
   let? pl := slice_from payload pf1 in
